@@ -367,7 +367,7 @@ def _raw_leaf_value(rng, leaf):
         return ['dec', rng.choice(cands)]
     if base in ('double', 'float'):
         pool = DBL_POOL if base == 'double' else [0.0, 1.0, -1.0, 0.5, 1.5, 2.5, 100.0, 1024.0, -0.25]
-        cands = list(pool)
+        cands = list(pool) + [float('inf'), float('-inf')]       # NaN has no place in an order: left to C05 / C08
         for a in anchors:
             x = float(a[1])
             cands += [x, x + 0.5, x - 0.5, x + 1.0, x - 1.0] * 2
@@ -718,7 +718,15 @@ def gen_doc(rng, desc, classes, cid, ns, name, depth, bad_p=0.25, nil_p=0.12):
     return e, notes
 
 
-def _leaf_text(rng, leaf, bad_p, notes, where):
+def _leaf_text(rng, leaf, bad_p, notes, where, scls=None):
+    t = _leaf_text0(rng, leaf, bad_p, notes, where)
+    msl = getattr(getattr(scls, 'Attributes', None), 'max_str_len', None)
+    if t is not None and msl is not None and leaf['base'] in list(INT_BOUNDS) + ['decimal', 'double', 'float'] and len(t) > msl:
+        notes.append('soft-only:max_str_len')      # the schema does not publish max_str_len
+    return t
+
+
+def _leaf_text0(rng, leaf, bad_p, notes, where):
     want = rng.random() >= bad_p
     v = gen_leaf_value(rng, leaf, want)
     if v is None:
@@ -747,7 +755,7 @@ def _doc_obj(rng, desc, classes, cid, ns, name, depth, bad_p, nil_p, notes):
         if f['kind'] == 'attr':
             present = rng.random() < (0.85 if f['min'] > 0 else 0.5)
             if present:
-                t = _leaf_text(rng, f['ty'][1], bad_p, notes, 'attr')
+                t = _leaf_text(rng, f['ty'][1], bad_p, notes, 'attr', fti[f['name']].type)
                 if t is not None:
                     e.set(f['name'], t)
             elif f['min'] > 0:
@@ -785,7 +793,7 @@ def _doc_member(rng, desc, classes, scls, f, ty, ns, name, depth, bad_p, nil_p, 
         return c
     if ty[0] == 'leaf':
         c = etree.Element(tag)
-        t = _leaf_text(rng, ty[1], bad_p, notes, 'elem')
+        t = _leaf_text(rng, ty[1], bad_p, notes, 'elem', scls)
         c.text = t if t is not None else ''
         if not c.text and f is not None and f.get('default') is not None:
             notes.append('schema-only:default')            # XSD reads an empty element as the default value
